@@ -318,3 +318,15 @@ class Extractor:
             raise AnchorLost(f"macro {macro_name}: unsubstituted metavariable after D5")
         self._record(rel, "macro-instance", f"{macro_name}!{subst}", start, end, t2, ["D5"])
         return t2
+
+
+    def macro_invocations(self, rel, macro_name):
+        """Top-level invocations `macro_name!( args );` in the file: returns the list of raw
+        argument strings (used to instantiate exactly what the real file instantiates)."""
+        s = self.src(rel)
+        out = []
+        for m in _code_positions(s, r"^(" + re.escape(macro_name) + r"!\s*\()"):
+            ob = s.index("(", m.start(1))
+            end = match_close(s, ob, "(", ")")
+            out.append(s[ob + 1:end - 1].strip())
+        return out
